@@ -11,6 +11,8 @@
 -/
 import CC.Proofs.CircuitLemmas
 import CC.Proofs.RoundLemmas
+import CC.Proofs.Sound
+import CC.Proofs.GQField
 namespace CC
 open Gen
 
@@ -308,6 +310,14 @@ theorem gate_iff0 (w wres : Rat) : wres < absQ w ↔ ¬ Spec.dist w 0 ≤ wres :
   have h : w - 0 = w := by grind
   rwa [h] at this
 
+theorem get?_ne_inf {c : Component} {k : String} {q : Rat} (h : c.value.lookup k = some (.num q)) :
+    (c.get? k == some Val.inf) = false := by
+  simp [Component.get?, h]
+
+theorem isInf_false {c : Component} {k : String} {q : Rat} (h : c.value.lookup k = some (.num q)) :
+    Spec.isInf c k = false := by
+  simp [Spec.isInf, h]
+
 variable (trig : Trig) (harm : Harm) (c : Component) (w wres : Rat) (a b : String)
 
 theorem C07_faithful_resistor (R : Rat)
@@ -317,8 +327,25 @@ theorem C07_faithful_resistor (R : Rat)
     ∧ Spec.branchOf trig harm c w wres = some { n1 := a, n2 := b, id := c.id, e := .norton ⟨R, 0⟩ 0 } := by
   have hl : Gen.tables.transformers.lookup "resistor" = some "resistor" := by decide
   constructor
-  · tc_simp [hk, hl, tspec_resistor, hn, float_of_lookup hR]
-  · tc_simp [hk, hn, num?_of_lookup hR]
+  · tc_simp [hk, hl, tspec_resistor, hn, float_of_lookup hR, get?_ne_inf hR]
+  · tc_simp [hk, hn, num?_of_lookup hR, isInf_false hR]
+
+/-- **C07 (limits, open switch).**  A resistor with `R = ∞` (what an open switch is translated
+to) becomes a branch whose record is the open circuit `(Y = 0, I = 0)` — the record that
+`NortenElement(Z = inf, V = 0)` is for every derived value (`Y = 1/inf = 0`, `I = 0/inf = 0`) and
+every predicate of elements.py — and that is what the specification intends. -/
+theorem C07_limits_open_switch
+    (hk : c.kind = "resistor") (hn : c.nodes = [a, b]) (hR : c.value.lookup "R" = some Val.inf) :
+    transformComponent Gen.tables trig harm c w wres
+      = some (.ok { n1 := a, n2 := b, id := c.id, ty := "resistor", e := .thevenin 0 0 })
+    ∧ Spec.branchOf trig harm c w wres = some { n1 := a, n2 := b, id := c.id, e := .thevenin 0 0 } := by
+  have hl : Gen.tables.transformers.lookup "resistor" = some "resistor" := by decide
+  have hg : (c.get? "R" == some Val.inf) = true := by simp [Component.get?, hR]
+  have hi : Spec.isInf c "R" = true := by simp [Spec.isInf, hR]
+  have hg' : c.get? "R" = some Val.inf := by simp [Component.get?, hR]
+  constructor
+  · tc_simp [hk, hl, tspec_resistor, hn, hg, hg']
+  · tc_simp [hk, hn, hi]
 
 theorem C07_faithful_impedance (R X : Rat)
     (hk : c.kind = "impedance") (hn : c.nodes = [a, b]) (hR : c.value.lookup "R" = some (.num R))
@@ -726,11 +753,15 @@ theorem C07_faithful_nonperiodic (trig : Trig) (harm : Harm) (h0 : TrigZero trig
   simp only [exactKinds, List.mem_cons, List.mem_nil_iff, or_false] at hk
   rcases hk with hk | hk | hk | hk | hk | hk | hk | hk | hk | hk | hk | hk | hk | hk | hk
   · -- resistor
-    cases hR : Spec.num? c "R" with
-    | none => simp [Spec.elemOf, hk, hR] at he
-    | some R =>
-      simp [Spec.elemOf, hk, hR] at he; subst he
-      exact ⟨_, (C07_faithful_resistor trig harm c w wres a b R hk hn (lookup_of_num? hR)).1, rfl⟩
+    by_cases hinf : Spec.isInf c "R" = true
+    · simp [Spec.elemOf, hk, hinf] at he; subst he
+      have hR : c.value.lookup "R" = some Val.inf := by simpa [Spec.isInf] using hinf
+      exact ⟨_, (C07_limits_open_switch trig harm c w wres a b hk hn hR).1, rfl⟩
+    · cases hR : Spec.num? c "R" with
+      | none => simp [Spec.elemOf, hk, hR, hinf] at he
+      | some R =>
+        simp [Spec.elemOf, hk, hR, hinf] at he; subst he
+        exact ⟨_, (C07_faithful_resistor trig harm c w wres a b R hk hn (lookup_of_num? hR)).1, rfl⟩
   · -- conductance
     cases hG : Spec.num? c "G" with
     | none => simp [Spec.elemOf, hk, hG] at he
@@ -1027,6 +1058,48 @@ theorem C07_limits_zero_resistance :
     (Elem.norton (⟨0, 0⟩ : GQ) 0).isShort = true ∧ (Elem.norton (⟨0, 0⟩ : GQ) 0).isIdealVS = true := by
   simp [Elem.isShort, Elem.isIdealVS, GQ.zero_def]
 
+
+/-- **C07 (limits, open switch is electrically open).**  The open-switch record takes part in
+no admittance sum (`Yfin = 0`), is no voltage source (ideal or not) and no current source with a
+value (`is_current_source` false, so it has no column in the right-hand side), and is what the
+solver calls an ideal current source of value 0 — an open circuit. -/
+theorem C07_open_switch_record :
+    (Elem.thevenin (0 : GQ) 0).Yfin = 0 ∧ (Elem.thevenin (0 : GQ) 0).Ival = 0 ∧
+    (Elem.thevenin (0 : GQ) 0).isIdealVS = false ∧ (Elem.thevenin (0 : GQ) 0).isVSrc = false ∧
+    (Elem.thevenin (0 : GQ) 0).isCS = false ∧ (Elem.thevenin (0 : GQ) 0).isIdealCS = true ∧
+    (Elem.thevenin (0 : GQ) 0).isOpen = true ∧ (Elem.thevenin (0 : GQ) 0).isActive = false := by
+  simp [Elem.Yfin, Elem.Ival, Elem.isIdealVS, Elem.isVSrc, Elem.Vval, Elem.isCS, Elem.isIdealCS, Elem.isOpen,
+    Elem.isActive]
+
+/-- **C07 (limits, an open switch in a network).**  In every network with distinct ids, a branch
+carrying the open-switch record is reported with current 0 whatever the solution vector is, and
+removing it changes no entry of the nodal admittance matrix: it adds 0 to every diagonal and
+off-diagonal admittance sum. -/
+theorem C07_open_switch_network (pre post : List (Branch String GQ)) (z : String) (b : Branch String GQ)
+    (he : b.e = .thevenin 0 0) :
+    (∀ x : List GQ, (pre ++ b :: post).map (·.id) |>.Nodup →
+      Net.current ({ branches := pre ++ b :: post, zero := z } : Net String GQ) x b.id = .ok 0) ∧
+    (∀ i j : String, Net.Yentry ({ branches := pre ++ b :: post, zero := z } : Net String GQ) i j
+        = Net.Yentry ({ branches := pre ++ post, zero := z } : Net String GQ) i j) := by
+  constructor
+  · intro x hids
+    have hb : b ∈ ({ branches := pre ++ b :: post, zero := z } : Net String GQ).branches := by simp
+    rw [current_ok ({ branches := pre ++ b :: post, zero := z } : Net String GQ) x hids b hb]
+    simp [Net.curOf, he, Elem.isIdealVS, Elem.isIdealCS, Elem.Ival]
+  · intro i j
+    have hv : b.e.isIdealVS = false := by simp [he, Elem.isIdealVS]
+    have hy : b.e.Yfin = 0 := by simp [he, Elem.Yfin]
+    unfold Net.Yentry Net.nonVS
+    simp only [List.filter_append, List.filter_cons, hv, Bool.not_false, if_true]
+    by_cases hij : i = j
+    · simp only [hij, if_true]
+      by_cases hc : (decide (b.n1 = j ∨ b.n2 = j)) = true
+      · simp [hc, hy]
+      · simp [hc]
+    · simp only [hij, if_false]
+      by_cases hc : (decide ((b.n1 = i ∧ b.n2 = j) ∨ (b.n1 = j ∧ b.n2 = i))) = true
+      · simp [hc, hy]
+      · simp [hc]
 
 /-! ## non-vacuity: concrete inputs that meet the hypotheses -/
 
